@@ -70,8 +70,9 @@ pub fn finish(args: ReportArgs, m: MetaView, cases: &[Params], items: &[(usize, 
         for f in &r.failures {
             failures.push((k, f.clone()));
         }
-        if samples.len() < 8 {
-            for o in r.sample_obligations.iter().take(3) {
+        if samples.len() < 10 {
+            let few = samples.len() < 2;
+            for o in r.sample_obligations.iter().filter(|o| o.rule != "ST" || few).take(4) {
                 samples.push(json!({"case": r.desc, "rule": o.rule, "obligation": o.label, "detail": o.detail, "discharged": o.ok}));
             }
         }
